@@ -97,15 +97,33 @@ The file has four independent layers; a harness uses them top-down.
    and a digest; ``confirm(space, res)`` replays the first violation of
    every signature twice (divergence -> core.Internal).
 
+Destructors.  Library objects may own descriptors and close them in a
+destructor, so *when* an object dies is part of an execution.  While a ``Run``
+is started (and inside ``with DirectRuntime``) the cyclic collector is off:
+an object dies exactly when its last reference is dropped (by the code under
+test or by the body: a step of the process that drops it, with the scheduling
+points of whatever the destructor calls), or, for what is still alive or
+sits in reference cycles, when the execution ends: ``Run.finish`` /
+``DirectRuntime.__exit__`` collect *before* the runtime is uninstalled, so a
+destructor never reaches the World of a later execution.  For a ``Run`` the
+processes are gone by then (exited: descriptors closed; killed; abandoned), a
+destructor calling into the OS just gets ``Abandon`` (no effect, no message).
+The same holds for the objects of a killed process that are released while
+its thread unwinds.  ``explore`` freezes the heap that exists before the
+search (``frozen_heap``), which makes the per-execution collection cheap.
+
 ``conformance()`` runs operation scripts against the model and against a real
 temporary directory / real ``fcntl`` (second process = forked child) and
 returns the list of differences (empty = conforming).
 """
+import contextlib
 import errno
+import gc
 import hashlib
 import itertools
 import multiprocessing as mp
 import os as _os
+import sys
 import threading
 
 from . import core
@@ -134,7 +152,66 @@ class SimBug(BaseException):
 
 
 class Abandon(BaseException):
-    """raised inside an abandoned / crashed process thread to unwind it"""
+    """raised inside an abandoned / crashed process thread to unwind it; also
+    what a destructor gets that calls into the simulated OS on behalf of a
+    process that is dead (killed, or its execution is over): such a call has
+    no effect in any world"""
+
+
+def _quiet_abandon():
+    """an Abandon that ends a destructor is not worth a message on stderr"""
+    prev = sys.unraisablehook
+    if getattr(prev, "simos_filter", False):
+        return
+
+    def hook(u):
+        if u.exc_type is not None and issubclass(u.exc_type, Abandon):
+            return
+        prev(u)
+    hook.simos_filter = True
+    sys.unraisablehook = hook
+
+
+_quiet_abandon()
+
+
+# ---- who destroys the objects of an execution, and when --------------------
+# Library objects may have destructors that call into the (simulated) OS.  An
+# execution therefore has to destroy its own objects inside its own
+# environment: the cyclic collector is switched off while an execution runs
+# (it would run destructors at allocation-count dependent moments, on
+# whatever thread, possibly after the World of a LATER execution has been
+# installed), reference counting destroys objects where the code under test
+# (or the harness body) drops them - that is a step of the owning process -
+# and what is left is collected when the execution ends, before its runtime
+# is uninstalled.
+class own_garbage:
+    """context manager: collector off inside; on exit everything unreachable
+    is destroyed (still inside whatever environment the caller holds), then
+    the collector gets its previous state back"""
+
+    def __enter__(self):
+        self.was = gc.isenabled()
+        gc.disable()
+        return self
+
+    def __exit__(self, *a):
+        gc.collect()
+        if self.was:
+            gc.enable()
+
+
+@contextlib.contextmanager
+def frozen_heap():
+    """everything alive now is taken out of the collector's sight while the
+    block runs, which makes the per-execution gc.collect() cheap (it only
+    looks at what the executions allocated); forked workers inherit it"""
+    gc.collect()
+    gc.freeze()
+    try:
+        yield
+    finally:
+        gc.unfreeze()
 
 
 def _err(code, path=None):
@@ -696,10 +773,15 @@ class DirectRuntime:
     def __enter__(self):
         global _RT
         self._prev, _RT = _RT, self
+        self._garbage = own_garbage().__enter__()
         return self
 
     def __exit__(self, *a):
+        """what the execution left behind is destroyed while this runtime is
+        still the current one (the caller has to drop its own references
+        first), see own_garbage"""
         global _RT
+        self._garbage.__exit__()
         _RT = self._prev
 
 
@@ -1210,6 +1292,8 @@ class Run:
         self.log.append((self.nsteps, p.pid) + ev)
 
     def syscall(self, name, args, thunk, enabled=None, fail=None):
+        if self.finished:       # a destructor, run while the rest is collected
+            raise Abandon()
         p = self.procs[self.pid()]
         self._park(p, (name, _summ(args)), enabled)
         p.lock_fail = None
@@ -1238,6 +1322,8 @@ class Run:
         """explorer-owned answer of a random source.  A value is never
         offered twice to the same process for the same source; when the
         domain is used up the answers continue upward deterministically."""
+        if self.finished:
+            raise Abandon()
         p = self.procs[self.pid()]
         if p.abandon:
             raise Abandon()
@@ -1326,6 +1412,7 @@ class Run:
             raise core.Internal("another Run is still active")
         _RT = self
         self.started = True
+        self._garbage = own_garbage().__enter__()
         for p in self.procs:
             p.thread = _get_host()
             p.thread.run(lambda p=p: self._main(p))
@@ -1424,6 +1511,13 @@ class Run:
                 p.sem.release()
                 self.ctl.acquire()
             # any other status: the thread is past its last hand-over
+        # the processes are gone (exited, killed or abandoned): whatever
+        # their objects' destructors still ask of the OS gets Abandon; this
+        # happens now, while this Run is the current runtime, and not when a
+        # later execution has installed its World
+        if getattr(self, "_garbage", None) is not None:
+            self._garbage.__exit__()
+            self._garbage = None
         if _RT is self:
             _RT = None
 
@@ -1601,6 +1695,11 @@ def explore(ctx, space, res, inline_below=96):
     stats = dict(states=0, transitions=0, executions=0, levels=0,
                  terminal_states=0, max_frontier=0, deadlocks=0,
                  complete=True)
+    with frozen_heap():
+        return _explore(ctx, space, res, inline_below, stats)
+
+
+def _explore(ctx, space, res, inline_below, stats):
     _, v0, obs0 = run_to(space, ())
     for v in v0:
         _report(space, res, v, ())
@@ -1907,6 +2006,35 @@ def _conf_scripts(root):
         (0, "a2", "os_open", (R + "/l/f", RW), {}),
         (1, None, "lockf", ("$b", EX | NB, 1, 0), {}),
         (0, None, "close", ("$a2",), {}),
+        (1, None, "lockf", ("$b", EX | NB, 1, 0), {}),
+        # ... all of them, through whichever descriptor they were taken, also
+        # when the closed descriptor never locked anything (a second
+        # LockFile object of the process that is dropped)
+        (1, None, "lockf", ("$b", UN), {}),
+        (0, None, "lockf", ("$a", EX | NB, 1, 3), {}),
+        (0, "a3", "os_open", (R + "/l/f", RW), {}),
+        (0, None, "lockf", ("$a3", EX | NB, 1, 5), {}),
+        (0, "a4", "os_open", (R + "/l/f", RW), {}),
+        (1, None, "lockf", ("$b", EX | NB, 1, 3), {}),
+        (1, None, "lockf", ("$b", EX | NB, 1, 5), {}),
+        (1, None, "lockf", ("$b", EX | NB, 1, 4), {}),
+        (1, None, "lockf", ("$b", UN, 1, 4), {}),
+        (0, None, "close", ("$a4",), {}),
+        (1, None, "lockf", ("$b", EX | NB, 1, 3), {}),
+        (1, None, "lockf", ("$b", EX | NB, 1, 5), {}),
+        (0, None, "lockf", ("$a", EX | NB, 1, 3), {}),
+        (0, None, "lockf", ("$a3", UN, 1, 5), {}),
+        (1, None, "lockf", ("$b", UN), {}),
+        # unlocking through one descriptor what another one locked
+        (0, None, "lockf", ("$a", EX | NB, 1, 3), {}),
+        (0, None, "lockf", ("$a3", UN, 1, 3), {}),
+        (1, None, "lockf", ("$b", EX | NB, 1, 3), {}),
+        (1, None, "lockf", ("$b", UN), {}),
+        (0, None, "lockf", ("$a3", EX | NB, 1, 5), {}),
+        (0, None, "close", ("$a3",), {}),
+        (0, None, "lockf", ("$a3", EX | NB, 1, 5), {}),
+        (1, None, "lockf", ("$b", EX | NB, 1, 5), {}),
+        (1, None, "lockf", ("$b", UN), {}),
         (1, None, "lockf", ("$b", EX | NB, 1, 0), {}),
         # a dying process releases its locks
         (0, None, "lockf", ("$a", EX | NB, 1, 0), {}),
